@@ -476,7 +476,7 @@ fn item_j(i: &syn::Item) -> J {
             obj("Enum", ln, vec![("name", s(&en.ident)), ("vis", s(toks(&en.vis))), ("variants", J::Arr(vars)), ("attrs", attrs_j(&en.attrs)), ("cfg_test", J::Bool(is_cfg_test(&en.attrs)))])
         }
         syn::Item::Const(c) => obj("Const", ln, vec![("name", s(&c.ident)), ("ty", s(toks(&c.ty))), ("expr", expr_j(&c.expr)), ("vis", s(toks(&c.vis))), ("cfg_test", J::Bool(is_cfg_test(&c.attrs)))]),
-        syn::Item::Static(c) => obj("Static", ln, vec![("name", s(&c.ident)), ("ty", s(toks(&c.ty))), ("mut", J::Bool(matches!(c.mutability, syn::StaticMutability::Mut(_)))), ("cfg_test", J::Bool(is_cfg_test(&c.attrs)))]),
+        syn::Item::Static(c) => obj("Static", ln, vec![("name", s(&c.ident)), ("ty", s(toks(&c.ty))), ("mut", J::Bool(matches!(c.mutability, syn::StaticMutability::Mut(_)))), ("expr", expr_j(&c.expr)), ("cfg_test", J::Bool(is_cfg_test(&c.attrs)))]),
         syn::Item::Macro(m) => obj("ItemMacro", ln, vec![("name", s(toks(&m.mac.path))), ("ident", m.ident.as_ref().map(|x| s(x)).unwrap_or(J::Null)), ("tokens", tt_j(m.mac.tokens.clone())), ("cfg_test", J::Bool(is_cfg_test(&m.attrs)))]),
         syn::Item::ExternCrate(e) => obj("ExternCrate", ln, vec![("name", s(&e.ident)), ("rename", e.rename.as_ref().map(|(_, r)| s(r)).unwrap_or(J::Null))]),
         syn::Item::Type(t) => obj("TypeAlias", ln, vec![("name", s(&t.ident)), ("ty", s(toks(&t.ty)))]),
